@@ -28,3 +28,17 @@ func verifParamFilterRoundTrip(pf ParamFilter) (*ParamFilter, error) {
 func verifPropFilterRoundTrip(pf *PropFilter) (*PropFilter, error) {
 	return decodePropFilter(encodePropFilter(pf))
 }
+
+// attribute values: an empty MarshalText result means the attribute is omitted and the
+// decoder keeps the zero value
+func verifNegateConditionRoundTrip(b bool) (bool, error) {
+	txt, err := negateCondition(b).MarshalText()
+	if err != nil {
+		return false, err
+	}
+	var out negateCondition
+	if len(txt) > 0 {
+		err = out.UnmarshalText(txt)
+	}
+	return bool(out), err
+}
